@@ -199,8 +199,10 @@ def c16_e(ctx):
     for n in own_nodes(sv.node):
         if isinstance(n, ast.If):
             m = match(ex.term(n.test), pattern('_k == _c'))
-            if m is not None and m['c'][0] == 'const':
-                kinds.add(m['c'][1])
+            if m is not None:
+                for side in (m['c'], m['k']):
+                    if side[0] == 'const' and isinstance(side[1], str):
+                        kinds.add(side[1])
     ctx.check(kinds >= {'csv', 'json', 'pkl'}, sv, 'three kinds handled', sorted(kinds),
               'save handles {} (expected csv, json, pkl)'.format(sorted(kinds)), fn=sv,
               node=sv.node)
